@@ -97,4 +97,41 @@ theorem tie_cycle_safe (caps : Caps) (s0 : Ctr) (ph1 ph2 : List (Pod × Bool)) :
   have h := cycle_caps_hold caps s0 ph1 ph2
   exact ⟨fun n hn => (h.1 n hn).2, fun k => (h.2.1 k).2, h.2.2.2, h.2.2.1⟩
 
+/-! ### the events around the arbitrator (handler.go) and the way of the caps from the file to the limiter -/
+
+/-- arbitrationHandler.Update drops the passed mark in exactly one place, guarded by `Phase == K1 || Phase == K2 …`, and the
+    phases K are exactly those of the model's `terminalPhase` (Succeeded, Failed, Aborted): a job whose phase is "", Pending,
+    Running or anything else keeps its mark (`passed_mark_kept_while_live`) -/
+theorem tie_handler_update_phases :
+    C16.handlerDropShape = true ∧ (∀ ph, terminalPhase ph = C16.handlerDropPhases.contains ph) := by
+  refine ⟨by decide, fun ph => ?_⟩
+  have h1 : ∀ ph < 7, terminalPhase ph = C16.handlerDropPhases.contains ph := by decide
+  have h2 : ∀ x ∈ C16.handlerDropPhases, x < 7 := by decide
+  by_cases h : ph < 7
+  · exact h1 ph h
+  · have a : terminalPhase ph = false := by
+      simp only [terminalPhase, Bool.or_eq_false_iff, beq_eq_false_iff_ne, ne_eq]
+      omega
+    have b : C16.handlerDropPhases.contains ph = false := by
+      cases hc : C16.handlerDropPhases.contains ph with
+      | false => rfl
+      | true => exact absurd (h2 ph (by simpa using hc)) h
+    rw [a, b]
+
+/-- Create only adds to the waiting collection, Delete only drops the mark, and DeletePodMigrationJob touches nothing but the
+    filter's map: the model's `handle` -/
+theorem tie_handler_create_delete :
+    C16.handlerCreateAdds = true ∧ C16.handlerDeleteDrops = true ∧ C16.arbDeleteOnlyDropsMark = true := by decide
+
+/-- no code of package v1alpha2 outside the generated deep-copy / conversion files names one of the three caps — in
+    particular SetDefaults_DeschedulerConfiguration does not (the model's `defaultCap` is the identity) -/
+theorem tie_defaults_leave_caps : C16.v1alpha2CapMentions = 0 := by decide
+
+/-- the conversion to the internal type copies each cap pointer to the field of the same name (`convertCap` = identity) -/
+theorem tie_conversion_copies_caps : C16.convCapAssigns = [(1, 1), (2, 2), (3, 3)] := by decide
+
+/-- app.Setup hands the three fields of the completed configuration to NewEvictionLimiter in the order node, namespace,
+    total, and nothing else in cmd/koord-descheduler/app names them (`configCaps`) -/
+theorem tie_setup_limiter_args : C16.setupLimiterArgs = [1, 2, 3] ∧ C16.appCapMentions = 3 := by decide
+
 end KoordVerif.C16
